@@ -1,6 +1,7 @@
 """C03 - hashes, XOFs and MACs equal their standards; MAC verification accepts exactly the defined tag."""
 import json
 import os
+import random
 import re
 from concurrent.futures import ThreadPoolExecutor
 
@@ -101,13 +102,35 @@ def run(ctx):
         rep = [dict(t, variant="repaired") for t in allk12]
         pv2 = ctx.validate("HashValueTrace", rep, family="k12-object-fields(repaired)")
         bad2 = [t for t in rep if pv2[t["tid"]][1] != "ok"]
-        if bad2:
-            raise Machinery("obj/K12Obj represents the code in neither variant: e.g. custom_len=%s update_lens=%s fields=%s (%s)" % (
-                bad2[0].get("clen"), bad2[0]["hist"], bad2[0]["proj"], pv2[bad2[0]["tid"]][1]))
         variant = "repaired"
         for t in records:
             if t["alg"] == "K12":
                 t["variant"] = "repaired"
+        if bad2:
+            # The private fields of the object follow neither variant of obj/K12Obj.  Private fields are not part of C03's statement (a
+            # refactoring may rename or re-purpose them), so this is not a violation by itself: the binding degrades to outputs.  The
+            # histories on which the fields disagree are exactly where the chunk automaton of the code departs from the model that
+            # refines RFC 9861, so they are re-recorded and judged BY VALUE against the RFC definition (smallest inputs first).
+            ctx.notes.append("K12 private fields follow neither variant of obj/K12Obj on %d histories (e.g. custom_len=%s update_lens=%s fields=%s): "
+                             "those histories are judged by value, the field comparison is dropped" % (len(bad2), bad2[0].get("clen"), bad2[0]["hist"], bad2[0]["proj"]))
+            variant = "repaired (fields not conforming: bound through outputs only)"
+            cand = sorted(bad2, key=lambda t: (t.get("clen", 0) + sum(t["hist"]), t["tid"]))
+            pickd, seen = [], set()
+            for t in cand:
+                k = (t.get("clen", 0), tuple(t["hist"]), bool(t["via_data"]))
+                if k not in seen:
+                    seen.add(k)
+                    pickd.append({"clen": t.get("clen", 0), "hist": t["hist"], "via_data": bool(t["via_data"]), "note": "fields %s" % t["proj"]})
+            nmis = 16 if quick else 80
+            pickd = pickd[:nmis // 2] + random.Random(ctx.seed).sample(pickd[nmis // 2:], min(len(pickd[nmis // 2:]), nmis // 2))
+            extra = ctx.drive("c03_hash", [], inp={"families": ["k12"], "k12_explicit": pickd, "tid0": max(t["tid"] for t in records + k12proj) + 1})["records"]
+            for t in records:
+                if t["alg"] == "K12":
+                    t["proj"] = []
+            for t in extra:
+                t["variant"] = "repaired"
+            records += extra
+            ctx.extra["k12_histories_rejudged_by_value_because_fields_differ"] = len(extra)
     observable = sum(1 for t in allk12 if t["proj"])
     ctx.extra["k12_model_variant_matching_the_code"] = variant
     ctx.extra["k12_histories_with_object_fields_compared"] = observable
